@@ -195,6 +195,49 @@ def cases(g):
         a[np.array(full)] = 9
         return a
     yield 'boolset', fsetb
+    # aliasing: basic slices / transposes / reshapes are views, advanced indexing and copies are not
+    def alias(np, how):
+        a = np.array(A)
+        if how == 'slice':
+            b = a[tuple(slice(r.randint(0, 1), None) for _ in sh)]
+        elif how == 'T':
+            b = a.T
+        elif how == 'reshape':
+            b = a.reshape(-1)
+        elif how == 'Treshape':
+            b = a.T.reshape(-1)
+        elif how == 'ravel':
+            b = a.ravel()
+        elif how == 'flatten':
+            b = a.flatten()
+        elif how == 'swap':
+            b = a.swapaxes(0, -1)
+        elif how == 'adv':
+            b = a[[0]]
+        elif how == 'take':
+            b = a.take([0], axis=0)
+        elif how == 'asarray':
+            b = np.asarray(a)
+        elif how == 'array':
+            b = np.array(a)
+        elif how == 'copy':
+            b = a.copy()
+        elif how == 'squeeze':
+            b = a.squeeze()
+        elif how == 'newaxis':
+            b = a[None]
+        elif how == 'int':
+            b = a[0] if a.ndim > 1 else a[0:1]
+        elif how == 'slice-of-T':
+            b = a.T[0:1]
+        elif how == 'astype':
+            b = a.astype(a.dtype)
+        if b.size:
+            b[(0,) * b.ndim] = 1
+            b.fill(1) if r.random() < 0.3 else None
+        return (a, b)
+    for how in ('slice', 'T', 'reshape', 'Treshape', 'ravel', 'flatten', 'swap', 'adv', 'take', 'asarray', 'array', 'copy', 'squeeze', 'newaxis', 'int', 'slice-of-T', 'astype'):
+        yield 'alias.%s' % how, (lambda np, how=how: alias(np, how))
     # take / compress / repeat / shape manipulation
     idx = [r.randint(-sh[ax] - 1, sh[ax] + 1) for _ in range(r.randint(0, 3))]
     mode = r.choice(['raise', 'clip', 'wrap'])
